@@ -417,6 +417,14 @@ class C13(Check):
                     # legality/flag checks stay meaningful
                     if op == 'split':
                         model.splits[-1] = tuple(gv)
+                        # whatever the clock did, a split's length is the
+                        # (clamped) difference of the RECORDED elapsed values
+                        prev_e = model.splits[-2][0] \
+                            if len(model.splits) > 1 else 0.0
+                        if gv[1] != max(0.0, gv[0] - prev_e):
+                            viol('split_length_not_difference_of_recorded',
+                                 index=i, split=list(gv), previous=prev_e)
+                            break
                 if op == 'elapsed' and arg is not None and gv == arg and \
                         wv == arg:
                     bump(pr, 'maximum_clamped')
